@@ -4,6 +4,7 @@ import (
 	"encoding/json"
 	"fmt"
 	"sort"
+	"strings"
 	"testing"
 
 	"pgregory.net/rapid"
@@ -55,6 +56,21 @@ func drawC06Size(t *rapid.T) c06SizeCase {
 		c.Where = "back"
 	default:
 		c.Where = fmt.Sprintf("into:%d", rapid.IntRange(0, len(c.Policy.Groups)-1).Draw(t, "intoGroup"))
+	}
+	if strings.HasPrefix(c.Where, "into:") && rapid.IntRange(0, 2).Draw(t, "aroundCapacity") == 0 {
+		// the group ends up with about 64, 128 or 256 syscalls (where tables kept per group tend to grow), a few of its
+		// conditional entries before that point and a few behind
+		var gi int
+		fmt.Sscanf(c.Where, "into:%d", &gi)
+		g := c.Policy.Groups[gi]
+		distinct := map[string]bool{}
+		for _, ce := range g.Conds {
+			distinct[ce.Name] = true
+		}
+		target := []int{64, 64, 128, 256}[rapid.IntRange(0, 3).Draw(t, "capacity")]
+		if pad := target - len(g.Names) - rapid.IntRange(0, len(distinct)+1).Draw(t, "capacityOffset") + rapid.IntRange(-1, 1).Draw(t, "capacityDelta"); pad >= 1 {
+			c.Pad = pad
+		}
 	}
 	// the padding names are a random subset, or the lowest / highest numbered free names (so that the syscalls the small
 	// policy speaks about lie above / below every added one)
